@@ -8,15 +8,16 @@ import os
 import numpy as np
 
 
-def mosaic_values(rows, cols, dtype):
+def mosaic_values(rows, cols, dtype, with_inf=True):
     """The underlying mosaic: value of canvas pixel (row r, col c) is 1000*r + c + 1 (exact in float32)."""
     r = np.asarray(rows, dtype=np.float64)[:, None]
     c = np.asarray(cols, dtype=np.float64)[None, :]
     v = (1000.0 * r + c + 1.0).astype(dtype)
     # a sprinkling of saturated samples: infinities are defined values (only NaN means undefined)
-    k = (r * 7 + c * 13) % 997
-    v[k == 0] = np.inf
-    v[k == 1] = -np.inf
+    if with_inf:
+        k = (r * 7 + c * 13) % 997
+        v[k == 0] = np.inf
+        v[k == 1] = -np.inf
     return v
 
 
@@ -84,7 +85,10 @@ def draw_collection(ch, max_images=6, sizes=(60, 200, 300, 520, 700, 256, 512)):
     # (toasty scans for the first image HDU); undefined pixels as NaN or as a sentinel declared through `blankval`
     for r in col.rects:
         r["in_extension"] = ch.draw(4, kind="hdu_container") == 3
-    col.blankval = -32768.0 if ch.draw(5, kind="blankval") == 4 else None
+    col.blankval = (None, None, None, -32768.0, 0.0)[ch.draw(5, kind="blankval")]
+    # saturated samples (+-inf) in one collection out of two; FITS pyramids holding infinities cannot be cascaded by
+    # toasty (Builder.cascade needs DATAMIN / DATAMAX of the root tile), so workflows that cascade switch this off
+    col.with_inf = ch.draw(2, kind="infinities") == 1
     return col
 
 
@@ -107,7 +111,7 @@ def rect_data(col, r):
     """Top-down data of one input image, with its undefined pixels."""
     rows = np.arange(r["r0"], r["r0"] + r["h"])
     cols = np.arange(r["c0"], r["c0"] + r["w"])
-    a = mosaic_values(rows, cols, col.dtype)
+    a = mosaic_values(rows, cols, col.dtype, getattr(col, "with_inf", True))
     b = r["border"]
     if b:
         a[:b, :] = np.nan
@@ -117,6 +121,8 @@ def rect_data(col, r):
     if r["holes"]:
         rr, cc = np.meshgrid(rows, cols, indexing="ij")
         a[(rr // 7 + cc // 5) % 4 == 0] = np.nan
+    if getattr(col, "blankval", None) is not None:
+        a[a == col.blankval] = np.nan       # a defined sample that happens to equal the sentinel is undefined by declaration
     return a
 
 
